@@ -98,15 +98,15 @@ def _bits(a, b):
     return a.shape == b.shape and bool(np.all(a.view(np.int64) == b.view(np.int64)))
 
 
-def h_persist(B, kind, Tmax, Nmax):
+def h_persist(B, kind, Tmax, Nmax, offset=0):
     from nifty.cl import utilities as ut
     from nifty.cl.minimization.sample_list import ResidualSampleList, SampleList
     residual = bool(B.pick("residual", 0, 1))
     Ts = B.pick("T_save", 1, Tmax)
     Tl = B.pick("T_load", 1, Tmax)
-    n1 = B.pick("n1", 1, Nmax)
+    n1 = offset + B.pick("n1", 1, Nmax)          # offset 9: list lengths 10..12 (file indices with one AND two digits)
     resave = bool(B.pick("resave", 0, 1))
-    n2 = B.pick("n2", 1, n1) if resave else n1
+    n2 = B.pick("n2", 1 if offset == 0 else n1 - 2, n1) if resave else n1
     Ts2 = B.pick("T_resave", 1, Tmax) if resave else Ts
     B.note(f"residual={residual} T_save={Ts} n1={n1} resave={resave} n2={n2} T_resave={Ts2} T_load={Tl}")
     saved, sc.Ctx.cur = sc.Ctx.cur, None          # concrete float64 fields from here on
@@ -221,6 +221,7 @@ def scenarios(tier, seed):
     quick = [("stats", {"kind": "single", "Tmax": 2, "Nmax": 3, "residual": False, "op_kind": "square"}),
              ("stats", {"kind": "multi", "Tmax": 2, "Nmax": 3, "residual": True, "op_kind": "diag"}),
              ("persist", {"kind": "single", "Tmax": 3, "Nmax": 3}),
+             ("persist", {"kind": "single", "Tmax": 2, "Nmax": 3, "offset": 9}),
              ("hdf5", {"kind": "multi", "Tmax": 2, "Nmax": 3, "op_kind": "diag"})]
     thorough = [("stats", {"kind": "single", "Tmax": 4, "Nmax": 4, "residual": True, "op_kind": "none"}),
                 ("stats", {"kind": "multi", "Tmax": 3, "Nmax": 4, "residual": False, "op_kind": "square"}),
@@ -246,7 +247,7 @@ META = {
     "functions_encoded": ["nifty.cl.minimization.sample_list.{SampleListBase.sample_stat,average,iterator,save_to_hdf5,_list_local_sample_files,"
                           "_ensure_proper_sample_list_ending,_save_to_disk,_load_from_disk,_consecutive_length,SampleList.save,load,"
                           "ResidualSampleList.save,load}", "nifty.cl.probing.StatCalculator"],
-    "bounds": {"tasks": "<= 3 quick, <= 5 thorough", "samples": "<= 3 quick, <= 4 thorough", "field entries": "2-3"},
+    "bounds": {"tasks": "<= 3 quick, <= 5 thorough", "samples": "<= 3 quick, <= 4 thorough; persistence also for lists of 10-12 samples (one- and two-digit file indices)", "field entries": "2-3"},
     "stubs": ["mpi4py communicator replaced by the C23 world model (tasks as cooperatively scheduled threads sharing one file system)"],
     "outside": ["crashes during save (C25)", "the persist and hdf5 parts run on concrete float64 fields (only the history is symbolic)",
                 "re-saving a LONGER list, lists saved under different base names in one directory"],
